@@ -2,12 +2,12 @@
 
 PROP = dict(
     level="proof",
-    lean_modules=['PopsModel.Props.C17'],
-    theorems=['Pops.C17_departure_rule', 'Pops.C17_leaving', 'Pops.C17_arrival', 'Pops.C17_two_phase', 'Pops.C17_outside_recorded', 'Pops.C17_movement_rows', 'Pops.C17_movement_once', 'Pops.C17_movement_amount'],
-    commands=['hp.pestsfrom', 'hp.peststo', 'hp.move', 'hp.overpop', 'hp.movement'],
+    lean_modules=['PopsModel.Props.C17', 'PopsModel.Props.C17Kern'],
+    theorems=['Pops.C17_departure_rule', 'Pops.C17_leaving', 'Pops.C17_arrival', 'Pops.C17_two_phase', 'Pops.C17_outside_recorded', 'Pops.C17_movement_rows', 'Pops.C17_movement_once', 'Pops.C17_movement_amount', 'Pops.C17_overpopulation_kernel_scale', 'Pops.C17_overpopulation_kernel_rejects', 'Pops.C17_overpopulation_kernel_is_natural', 'Pops.C17_overpopulation_uniform_range'],
+    commands=['hp.pestsfrom', 'hp.peststo', 'hp.move', 'hp.overpop', 'hp.movement', 'kern.overpop'],
     runs={
-        "quick": [('h_host', 'pool', 0, 1500), ('h_model', 'model', 0, 400)],
-        "thorough": [('h_host', 'pool', 0, 150000), ('h_model', 'model', 0, 20000)],
+        "quick": [('h_host', 'pool', 0, 1500), ('h_model', 'model', 0, 400), ('h_kern', 'overpop', 0, 1600)],
+        "thorough": [('h_host', 'pool', 0, 150000), ('h_model', 'model', 0, 20000), ('h_kern', 'overpop', 0, 60000)],
     },
     exhaustive={"quick": False, "thorough": False},
     rule="case (pool) = one random landscape (7 shapes incl. 1x1, 1xN, Nx1, rows != cols; SI/SEI, latency 0..3, 1..4 mortality cohorts, 20% empty cells) with 5-14 random operations (add/land a disperser with scripted uniform, deterministic generation, pests from/to, host move incl. same-cell, removal/pesticide treatment in both modes with coefficients k/64, pesticide end, survival rate, lethal temperature, mortality, latency step); case (model) = one random Model configuration (feature subsets, calendar with day/week/month steps, both entry points, injected kernel throwing dispersers inside / at the source / just outside / far outside) run for up to 40 steps with the state printed after every action; non-trivial = at least 3 different operation kinds on a landscape with a suitable cell (pool) / at least 3 steps (model); distinct = blake2b of the case's protocol lines",
@@ -17,7 +17,7 @@ PROP = dict(
 
 META = dict(engine="h_host", design_ref="DESIGN.md section 3, C17",
     technique='Lean 4 theorems on the L1 overpopulation and movement model + predicates and exact replay against Model::run_step and the pool primitives',
-    text='Proof: the overpopulation rules (departure, leaving count, arrival, two-phase, outside recording) and the host-movement rules (cursor, once-only, amount, cohort membership) are theorems about the L1 action model for every threshold and share in [0,1], every kernel result, every table. Tied to the code through Model::run_step (deterministic neighbour kernel for overpopulation, random movement tables with repeated rows and same-cell rows) and the pool primitives with exact replay. Multi-host movement (only the first host moves) is outside the single-host model.',
+    text='Proof: the overpopulation rules (departure, leaving count, arrival, two-phase, outside recording) and the host-movement rules (cursor, once-only, amount, cohort membership) are theorems about the L1 action model for every threshold and share in [0,1], every kernel result, every table. Tied to the code through Model::run_step (deterministic neighbour kernel for overpopulation, random movement tables with repeated rows and same-cell rows) and the pool primitives with exact replay. The kernel Model builds for the overpopulation move (create_overpopulation_movement_kernel: natural kernel type, scale x leaving_scale_coefficient, shape, resolutions, direction, kappa, uniform range, neighbour direction) is modelled and probed through a derived Model class (h_kern overpop; theorems C17_overpopulation_kernel_*). Multi-host movement (only the first host moves) is outside the single-host model.',
     note='Trusted: Lean kernel + propext/Classical.choice/Quot.sound; hand-written L1 model of host_pool.hpp / treatments.hpp / actions.hpp (Model/Host.lean, Treat.lean, Actions.lean); harness and driver. int as unbounded Int; ratios as exact Rat on dyadic inputs (k/64); std::shuffle assumed to produce a permutation (draws are inferred from the observed difference and checked for validity).')
 
 ENGINES = [
